@@ -59,13 +59,36 @@ def bk_pred(c, i):
 
 
 class Pairs:
-    """a name-to-callable mapping as CompositeHandler.__call__ uses it (items())"""
+    """a name-to-callable mapping as CompositeHandler.__call__ uses it (items()); mutable in place"""
 
     def __init__(self, pairs):
         self.pairs = list(pairs)
 
     def items(self):
         return list(self.pairs)
+
+    def __len__(self):
+        return len(self.pairs)
+
+    def __iter__(self):
+        return iter([k for k, v in self.pairs])
+
+    def keys(self):
+        return [k for k, v in self.pairs]
+
+    def values(self):
+        return [v for k, v in self.pairs]
+
+
+class FalsyCallable(list):
+    """a callable whose truth value is False (an empty list subclass with __call__)"""
+
+    def __init__(self, fn):
+        list.__init__(self)
+        self.fn = fn
+
+    def __call__(self, v):
+        return self.fn(v)
 
 
 def expected_entries(view, events):
@@ -165,6 +188,13 @@ class C16(P.TextMixin, Harness):
                 # two superfluous symbolic entries (names no entry uses may still collide), one None
                 us.append({'schema': sid, 'text': ti, 'files': [['main.conf', t]], 'sym': [],
                            'none': ['extra'], 'extra': 2})
+                # a falsy callable; the same mapping object called twice with an in-place edit between
+                us.append({'schema': sid, 'text': ti, 'files': [['main.conf', t]], 'sym': [],
+                           'none': [], 'extra': False, 'falsy': True})
+                us.append({'schema': sid, 'text': ti, 'files': [['main.conf', t]], 'sym': [],
+                           'none': [], 'extra': False, 'twice': True})
+                us.append({'schema': sid, 'text': ti, 'files': [['main.conf', t]], 'sym': [0, 1],
+                           'none': [], 'extra': False, 'twice': True})
         return us
 
     def inputs(self, eng, unit):
@@ -199,12 +229,27 @@ class C16(P.TextMixin, Harness):
         calls = []
         pairs = []
         for supplied, which in self.map_names(unit, inp):
+            fn = (lambda w: (lambda v: calls.append((w, v))))(which)
             if which in unit['none']:
                 pairs.append((supplied, None))
+            elif unit.get('falsy') and which == NAMES[unit['schema']][0]:
+                pairs.append((supplied, FalsyCallable(fn)))
             else:
-                pairs.append((supplied, (lambda w: (lambda v: calls.append((w, v))))(which)))
+                pairs.append((supplied, fn))
+        mapping = Pairs(pairs)
         try:
-            handler(Pairs(pairs))
+            if unit.get('twice'):
+                # the SAME mapping object used for an earlier, successful call, then changed in place
+                # at the same size: the first entry's callable is swapped for None and back
+                first = [(k, (None if i == 0 else v)) for i, (k, v) in enumerate(pairs)]
+                mapping.pairs = first
+                try:
+                    handler(mapping)
+                except ZConfig.ConfigurationError:
+                    pass
+                del calls[:]
+                mapping.pairs = list(pairs)
+            handler(mapping)
         except ZConfig.ConfigurationError:
             return ('error', len(calls), len(handler))
         except Exception as e:
